@@ -121,12 +121,12 @@ Proof.
 Qed.
 
 (** A [Reading] state without terminator whose next read yields nothing is a
-    fixed point of [step]: the busy spin. *)
+    fixed point of [step_before_fix]: the busy spin. *)
 Lemma stuck_eof_fix rs h w buf p lg :
   has_term buf = false -> (rs = [] \/ exists r, rs = REof :: r) ->
-  step (rd_cfg rs h w buf p lg) = rd_cfg rs h w buf p lg.
+  step_before_fix (rd_cfg rs h w buf p lg) = rd_cfg rs h w buf p lg.
 Proof.
-  intros Ht Hrs. unfold step, rd_cfg; cbn [st pending log].
+  intros Ht Hrs. unfold step_before_fix, rd_cfg; cbn [st pending log].
   assert (E : do_read rs buf = Some (rs, buf)).
   { unfold do_read. destruct (BUFn - length buf); [reflexivity |].
     destruct Hrs as [-> | (r & ->)]; reflexivity. }
@@ -135,9 +135,9 @@ Qed.
 
 Lemma stuck_full_fix rs h w buf p lg :
   has_term buf = false -> BUFn <= length buf ->
-  step (rd_cfg rs h w buf p lg) = rd_cfg rs h w buf p lg.
+  step_before_fix (rd_cfg rs h w buf p lg) = rd_cfg rs h w buf p lg.
 Proof.
-  intros Ht Hl. unfold step, rd_cfg; cbn [st pending log].
+  intros Ht Hl. unfold step_before_fix, rd_cfg; cbn [st pending log].
   rewrite do_read_full by exact Hl. rewrite Ht.
   destruct (BUFn <=? length buf); reflexivity.
 Qed.
@@ -146,7 +146,7 @@ Definition stuck_ok (rs : list rd) (buf : list Z) : Prop :=
   has_term buf = false /\ (BUFn <= length buf \/ rs = [] \/ exists r, rs = REof :: r).
 
 Lemma stuck_fix rs h w buf p lg :
-  stuck_ok rs buf -> step (rd_cfg rs h w buf p lg) = rd_cfg rs h w buf p lg.
+  stuck_ok rs buf -> step_before_fix (rd_cfg rs h w buf p lg) = rd_cfg rs h w buf p lg.
 Proof.
   intros (Ht & [H | H]); [apply stuck_full_fix | apply stuck_eof_fix]; assumption.
 Qed.
@@ -155,11 +155,11 @@ Qed.
 Lemma read_small rs : forall buf h w p lg,
   has_term buf = false -> length buf < BUFn ->
   match read_loop rs buf with
-  | RFound b => reaches step (length rs) (rd_cfg rs h w buf p lg) (after_found b h w p lg)
+  | RFound b => reaches step_before_fix (length rs) (rd_cfg rs h w buf p lg) (after_found b h w p lg)
                 /\ has_term b = true
-  | RStuck rs' b => reaches step (length rs) (rd_cfg rs h w buf p lg) (rd_cfg rs' h w b p lg)
+  | RStuck rs' b => reaches step_before_fix (length rs) (rd_cfg rs h w buf p lg) (rd_cfg rs' h w b p lg)
                     /\ stuck_ok rs' b
-  | RFail => reaches step (length rs) (rd_cfg rs h w buf p lg) (mkCfg Exited p lg)
+  | RFail => reaches step_before_fix (length rs) (rd_cfg rs h w buf p lg) (mkCfg Exited p lg)
   end.
 Proof.
   induction rs as [| r rest IH]; intros buf h w p lg Ht Hl.
@@ -168,10 +168,10 @@ Proof.
     + cbn [read_loop length].
       set (n := BUFn - length buf).
       set (buf' := buf ++ firstn n (b :: bs)).
-      assert (Hstep : step (rd_cfg (RChunk b bs :: rest) h w buf p lg) =
+      assert (Hstep : step_before_fix (rd_cfg (RChunk b bs :: rest) h w buf p lg) =
                 if has_term buf' then after_found buf' h w p lg
                 else rd_cfg (mk_chunk (skipn n (b :: bs)) rest) h w buf' p lg).
-      { unfold step, rd_cfg; cbn [st pending log]. rewrite do_read_space by exact Hl.
+      { unfold step_before_fix, rd_cfg; cbn [st pending log]. rewrite do_read_space by exact Hl.
         fold n. fold buf'. unfold after_found.
         destruct (has_term buf'); [reflexivity |]. destruct (BUFn <=? length buf'); reflexivity. }
       destruct (has_term buf') eqn:Hb.
@@ -184,7 +184,7 @@ Proof.
            assert (Hfl : length (firstn n (b :: bs)) < n).
            { subst buf'. rewrite app_length in Hlen. subst n. lia. }
            destruct (skipn_nil_firstn _ _ Hfl) as [Hf Hs].
-           assert (Hstep' : step (rd_cfg (RChunk b bs :: rest) h w buf p lg) = rd_cfg rest h w buf' p lg).
+           assert (Hstep' : step_before_fix (rd_cfg (RChunk b bs :: rest) h w buf p lg) = rd_cfg rest h w buf' p lg).
            { rewrite Hstep. rewrite Hs. reflexivity. }
            specialize (IH buf' h w p lg Hb Hlen).
            destruct (read_loop rest buf') as [fb | rs' sb |].
@@ -195,7 +195,7 @@ Proof.
            ++ apply reaches_step. rewrite Hstep'. exact IH.
     + cbn [read_loop]. split; [apply reaches_refl |]. split; [exact Ht | right; right; eauto].
     + cbn [read_loop length]. apply reaches_step.
-      unfold step, rd_cfg; cbn [st pending log]. rewrite do_read_space by exact Hl.
+      unfold step_before_fix, rd_cfg; cbn [st pending log]. rewrite do_read_space by exact Hl.
       apply reaches_refl.
 Qed.
 
@@ -252,7 +252,7 @@ Proof.
       rewrite firstn_all2 by lia. split; [exact Ht |]. split; [lia | reflexivity].
 Qed.
 
-(** * One connection, code as it is *)
+(** * One connection, pre-fix loop *)
 
 Lemma BUFn_pos : 0 < BUFn.
 Proof. unfold BUFn. lia. Qed.
@@ -260,7 +260,7 @@ Proof. unfold BUFn. lia. Qed.
 Definition acc_cfg (p : list item) (lg : list cout) : cfg := mkCfg Accepting p lg.
 
 Lemma accept_step c p lg :
-  step (acc_cfg (Conn c :: p) lg) = rd_cfg (c_reads c) (c_hnd c) (c_wr c) [] p lg.
+  step_before_fix (acc_cfg (Conn c :: p) lg) = rd_cfg (c_reads c) (c_hnd c) (c_wr c) [] p lg.
 Proof. reflexivity. Qed.
 
 (** The kind of a connection, read off the big-step result. *)
@@ -285,7 +285,7 @@ Proof.
   - destruct S as (Hw & Hl & He). rewrite Hw. apply Nat.leb_gt in Hl. rewrite Hl, He. reflexivity.
 Qed.
 
-Definition is_fix (T : cfg) : Prop := step T = T.
+Definition is_fix (T : cfg) : Prop := step_before_fix T = T.
 
 Lemma exited_fix p lg : is_fix (mkCfg Exited p lg).
 Proof. reflexivity. Qed.
@@ -293,17 +293,17 @@ Proof. reflexivity. Qed.
 Lemma idle_fix lg : is_fix (acc_cfg [] lg).
 Proof. reflexivity. Qed.
 
-(** What one connection does to the exporter (today's code). *)
+(** What one connection does to the exporter (the pre-fix loop). *)
 Lemma conn_as_is c p lg :
   let n := length (c_reads c) in
   match kind_of c with
-  | KGet => reaches step (1 + n) (acc_cfg (Conn c :: p) lg)
+  | KGet => reaches step_before_fix (1 + n) (acc_cfg (Conn c :: p) lg)
                     (mkCfg (Responding (status_of (c_hnd c)) WOk) p lg)
-  | KNonGet => reaches step (1 + n) (acc_cfg (Conn c :: p) lg) (acc_cfg p (lg ++ [ODropped]))
-  | KGetRst => reaches step (2 + n) (acc_cfg (Conn c :: p) lg) (mkCfg Exited p lg)
-  | KReset => reaches step (1 + n) (acc_cfg (Conn c :: p) lg) (mkCfg Exited p lg)
+  | KNonGet => reaches step_before_fix (1 + n) (acc_cfg (Conn c :: p) lg) (acc_cfg p (lg ++ [ODropped]))
+  | KGetRst => reaches step_before_fix (2 + n) (acc_cfg (Conn c :: p) lg) (mkCfg Exited p lg)
+  | KReset => reaches step_before_fix (1 + n) (acc_cfg (Conn c :: p) lg) (mkCfg Exited p lg)
   | KEof | KOversize =>
-      exists rs' b, reaches step (1 + n) (acc_cfg (Conn c :: p) lg)
+      exists rs' b, reaches step_before_fix (1 + n) (acc_cfg (Conn c :: p) lg)
                             (rd_cfg rs' (c_hnd c) (c_wr c) b p lg)
                     /\ is_fix (rd_cfg rs' (c_hnd c) (c_wr c) b p lg)
   end.
@@ -324,7 +324,7 @@ Proof.
     + apply reaches_step. rewrite accept_step. exact R.
   - destruct R as [R Hs].
     assert (G : exists rs'0 b0,
-               reaches step (1 + length (c_reads c)) (acc_cfg (Conn c :: p) lg)
+               reaches step_before_fix (1 + length (c_reads c)) (acc_cfg (Conn c :: p) lg)
                  (rd_cfg rs'0 (c_hnd c) (c_wr c) b0 p lg)
                /\ is_fix (rd_cfg rs'0 (c_hnd c) (c_wr c) b0 p lg)).
     { exists rs', b. split.
@@ -334,20 +334,20 @@ Proof.
   - rewrite K. apply reaches_step. rewrite accept_step. exact R.
 Qed.
 
-(** * The three refutations of [serves_next] on today's code (F19) *)
+(** * The three refutations of [serves_next] on the pre-fix loop (F19) *)
 
 (** Premature close: once the peer has closed, the state never changes again
     (for ALL n), in particular nothing is accepted any more. *)
 Theorem eof_spins_state : forall n rs h w buf p lg,
   has_term buf = false ->
-  iter n step (rd_cfg (REof :: rs) h w buf p lg) = rd_cfg (REof :: rs) h w buf p lg.
+  iter n step_before_fix (rd_cfg (REof :: rs) h w buf p lg) = rd_cfg (REof :: rs) h w buf p lg.
 Proof.
   intros. apply iter_fix. apply stuck_eof_fix; [assumption | right; eauto].
 Qed.
 
 (** From the start: a client that connects and closes after sending nothing. *)
 Theorem eof_spins : forall n h w g rest,
-  iter (S n) step (init (Conn (mkConn [REof] h w g) :: rest))
+  iter (S n) step_before_fix (init (Conn (mkConn [REof] h w g) :: rest))
   = rd_cfg [REof] h w [] rest [].
 Proof.
   intros. cbn [iter]. unfold init. change (mkCfg Accepting ?p ?l) with (acc_cfg p l).
@@ -358,7 +358,7 @@ Qed.
 Theorem eof_spins_partial : forall c p lg,
   kind_of c = KEof ->
   exists T, st T <> Accepting /\ pending T = p /\ log T = lg /\
-    forall n, 1 + length (c_reads c) <= n -> iter n step (acc_cfg (Conn c :: p) lg) = T.
+    forall n, 1 + length (c_reads c) <= n -> iter n step_before_fix (acc_cfg (Conn c :: p) lg) = T.
 Proof.
   intros c p lg K. pose proof (conn_as_is c p lg) as H. cbn zeta in H. rewrite K in H.
   destruct H as (rs' & b & R & F).
@@ -370,13 +370,13 @@ Qed.
     slice, the state never changes again. *)
 Theorem oversize_spins_state : forall n rs h w buf p lg,
   has_term buf = false -> BUFn <= length buf ->
-  iter n step (rd_cfg rs h w buf p lg) = rd_cfg rs h w buf p lg.
+  iter n step_before_fix (rd_cfg rs h w buf p lg) = rd_cfg rs h w buf p lg.
 Proof. intros. apply iter_fix. apply stuck_full_fix; assumption. Qed.
 
 Theorem oversize_spins : forall c p lg,
   kind_of c = KOversize ->
   exists T, st T <> Accepting /\ pending T = p /\ log T = lg /\
-    forall n, 1 + length (c_reads c) <= n -> iter n step (acc_cfg (Conn c :: p) lg) = T.
+    forall n, 1 + length (c_reads c) <= n -> iter n step_before_fix (acc_cfg (Conn c :: p) lg) = T.
 Proof.
   intros c p lg K. pose proof (conn_as_is c p lg) as H. cbn zeta in H. rewrite K in H.
   destruct H as (rs' & b & R & F).
@@ -387,34 +387,34 @@ Qed.
 (** Reset: [?] on the read error (or on the write error) leaves [main]. *)
 Theorem reset_exits_state : forall n rs h w buf p lg,
   length buf < BUFn ->
-  iter (S n) step (rd_cfg (RErr :: rs) h w buf p lg) = mkCfg Exited p lg.
+  iter (S n) step_before_fix (rd_cfg (RErr :: rs) h w buf p lg) = mkCfg Exited p lg.
 Proof.
   intros. cbn [iter].
-  assert (E : step (rd_cfg (RErr :: rs) h w buf p lg) = mkCfg Exited p lg).
-  { unfold step, rd_cfg; cbn [st pending log]. rewrite do_read_space by assumption. reflexivity. }
+  assert (E : step_before_fix (rd_cfg (RErr :: rs) h w buf p lg) = mkCfg Exited p lg).
+  { unfold step_before_fix, rd_cfg; cbn [st pending log]. rewrite do_read_space by assumption. reflexivity. }
   rewrite E. apply iter_fix. reflexivity.
 Qed.
 
 Theorem reset_exits : forall c p lg,
   kind_of c = KReset \/ kind_of c = KGetRst ->
   forall n, 2 + length (c_reads c) <= n ->
-    iter n step (acc_cfg (Conn c :: p) lg) = mkCfg Exited p lg.
+    iter n step_before_fix (acc_cfg (Conn c :: p) lg) = mkCfg Exited p lg.
 Proof.
   intros c p lg K n Hn. pose proof (conn_as_is c p lg) as H. cbn zeta in H.
   destruct K as [K | K]; rewrite K in H.
-  - apply (reaches_fix step (2 + length (c_reads c))); [| reflexivity | exact Hn].
+  - apply (reaches_fix step_before_fix (2 + length (c_reads c))); [| reflexivity | exact Hn].
     eapply reaches_weaken; [| exact H]. lia.
-  - apply (reaches_fix step (2 + length (c_reads c))); [exact H | reflexivity | exact Hn].
+  - apply (reaches_fix step_before_fix (2 + length (c_reads c))); [exact H | reflexivity | exact Hn].
 Qed.
 
 Theorem write_error_exits : forall n s p lg,
-  iter (S n) step (mkCfg (Responding s WErr) p lg) = mkCfg Exited p lg.
-Proof. intros. cbn [iter]. change (step (mkCfg (Responding s WErr) p lg)) with (mkCfg Exited p lg).
+  iter (S n) step_before_fix (mkCfg (Responding s WErr) p lg) = mkCfg Exited p lg.
+Proof. intros. cbn [iter]. change (step_before_fix (mkCfg (Responding s WErr) p lg)) with (mkCfg Exited p lg).
   apply iter_fix. reflexivity. Qed.
 
 Theorem accept_error_exits : forall n p lg,
-  iter (S n) step (acc_cfg (AcceptErr :: p) lg) = mkCfg Exited p lg.
-Proof. intros. cbn [iter]. change (step (acc_cfg (AcceptErr :: p) lg)) with (mkCfg Exited p lg).
+  iter (S n) step_before_fix (acc_cfg (AcceptErr :: p) lg) = mkCfg Exited p lg.
+Proof. intros. cbn [iter]. change (step_before_fix (acc_cfg (AcceptErr :: p) lg)) with (mkCfg Exited p lg).
   apply iter_fix. reflexivity. Qed.
 
 (** * Lists of connections *)
@@ -432,7 +432,7 @@ Proof. induction a; cbn [bound app]; lia. Qed.
 
 Lemma benign_conn_done c p lg :
   benign_conn c = true ->
-  reaches step (item_cost (Conn c)) (acc_cfg (Conn c :: p) lg) (acc_cfg p (lg ++ [expected c])).
+  reaches step_before_fix (item_cost (Conn c)) (acc_cfg (Conn c :: p) lg) (acc_cfg p (lg ++ [expected c])).
 Proof.
   unfold benign_conn, expected. intros B. pose proof (conn_as_is c p lg) as H. cbn zeta in H.
   cbn [item_cost].
@@ -444,7 +444,7 @@ Qed.
 
 Lemma benign_run pre : forall p lg,
   benign pre = true ->
-  reaches step (bound pre) (acc_cfg (pre ++ p) lg) (acc_cfg p (lg ++ map expected_item pre)).
+  reaches step_before_fix (bound pre) (acc_cfg (pre ++ p) lg) (acc_cfg p (lg ++ map expected_item pre)).
 Proof.
   induction pre as [| i pre IH]; intros p lg B.
   - cbn. rewrite app_nil_r. apply reaches_refl.
@@ -457,44 +457,44 @@ Proof.
     apply IH. exact B.
 Qed.
 
-Lemma exited_stays s : st s = Exited -> forall k, st (iter k step s) = Exited.
+Lemma exited_stays s : st s = Exited -> forall k, st (iter k step_before_fix s) = Exited.
 Proof.
   intros H k. revert s H. induction k; intros s H; cbn [iter]; [exact H |].
-  apply IHk. unfold step. rewrite H. exact H.
+  apply IHk. unfold step_before_fix. rewrite H. exact H.
 Qed.
 
 Lemma not_exited_before n m s :
-  m <= n -> st (iter n step s) <> Exited -> st (iter m step s) <> Exited.
+  m <= n -> st (iter n step_before_fix s) <> Exited -> st (iter m step_before_fix s) <> Exited.
 Proof.
   intros Hm Hn E. apply Hn. replace n with (m + (n - m)) by lia. rewrite iter_add.
   apply exited_stays. exact E.
 Qed.
 
-(** [serves_next], for today's code under the guard [benign]: after ANY finite
+(** [serves_next], for the pre-fix loop under the guard [benign]: after ANY finite
     list of benign connections a well-formed request is being answered (200, or
     500 when the handler fails) within the step budget, and the process never
     exits. *)
-Theorem serves_next : forall pre last,
+Theorem serves_next_before_fix : forall pre last,
   benign pre = true -> wellformed_get last = true ->
   let items := pre ++ [Conn last] in
   (exists n, n <= bound items /\
-     iter n step (init items)
+     iter n step_before_fix (init items)
      = mkCfg (Responding (status_of (c_hnd last)) WOk) [] (map expected_item pre))
-  /\ (forall m, st (iter m step (init items)) <> Exited)
-  /\ run_with step items
+  /\ (forall m, st (iter m step_before_fix (init items)) <> Exited)
+  /\ run_with step_before_fix items
      = (map expected_item pre ++ [OStatus (status_of (c_hnd last))], FIdle).
 Proof.
   intros pre last B W items. unfold wellformed_get in W.
   assert (K : kind_of last = KGet) by (destruct (kind_of last); try discriminate; reflexivity).
   pose proof (benign_run pre [Conn last] [] B) as R1. cbn [app] in R1.
   pose proof (conn_as_is last [] (map expected_item pre)) as R2. cbn zeta in R2. rewrite K in R2.
-  assert (R : reaches step (bound pre + (1 + length (c_reads last))) (init items)
+  assert (R : reaches step_before_fix (bound pre + (1 + length (c_reads last))) (init items)
                (mkCfg (Responding (status_of (c_hnd last)) WOk) [] (map expected_item pre))).
   { eapply reaches_trans; [exact R1 | exact R2]. }
   assert (Hb : bound items = bound pre + (2 + length (c_reads last))).
   { unfold items. rewrite bound_app. cbn [bound item_cost]. lia. }
   set (A := acc_cfg [] (map expected_item pre ++ [OStatus (status_of (c_hnd last))])).
-  assert (RA : reaches step (bound items) (init items) A).
+  assert (RA : reaches step_before_fix (bound items) (init items) A).
   { rewrite Hb. replace (bound pre + (2 + length (c_reads last)))
       with ((bound pre + (1 + length (c_reads last))) + 1) by lia.
     eapply reaches_trans; [exact R |]. apply reaches_step. cbn. apply reaches_refl. }
@@ -505,22 +505,22 @@ Proof.
     + apply (not_exited_before n m); [exact Hm |]. rewrite E. discriminate.
     + replace m with (n + (m - n)) by lia. rewrite iter_add, E.
       rewrite iter_fix by reflexivity. discriminate.
-  - unfold run_with. rewrite (reaches_fix step _ _ _ RA (idle_fix _) _ (le_n _)).
+  - unfold run_with. rewrite (reaches_fix step_before_fix _ _ _ RA (idle_fix _) _ (le_n _)).
     unfold A, acc_cfg, final_of, pad_log; cbn [st pending log].
     unfold items. rewrite !app_length, map_length. cbn [length].
     replace (length pre + 1 - (length pre + 1)) with 0 by lia. cbn [repeat].
     rewrite app_nil_r. reflexivity.
 Qed.
 
-(** * Complete characterisation of a run of today's code *)
+(** * Complete characterisation of a run of the pre-fix loop *)
 
 Lemma benign_all_run items :
   benign items = true ->
-  run_with step items = (map expected_item items, FIdle).
+  run_with step_before_fix items = (map expected_item items, FIdle).
 Proof.
   intros B. pose proof (benign_run items [] [] B) as R. rewrite app_nil_r in R. cbn [app] in R.
   unfold run_with. unfold init. change (mkCfg Accepting items []) with (acc_cfg items []).
-  rewrite (reaches_fix step _ _ _ R (idle_fix _) _ (le_n _)).
+  rewrite (reaches_fix step_before_fix _ _ _ R (idle_fix _) _ (le_n _)).
   unfold acc_cfg, final_of, pad_log; cbn [st pending log].
   rewrite map_length. replace (length items - length items) with 0 by lia. cbn [repeat].
   rewrite app_nil_r. reflexivity.
@@ -542,7 +542,7 @@ Qed.
 
 Lemma bad_conn_wedges c p lg :
   benign_conn c = false ->
-  exists T, reaches step (item_cost (Conn c)) (acc_cfg (Conn c :: p) lg) T /\ is_fix T
+  exists T, reaches step_before_fix (item_cost (Conn c)) (acc_cfg (Conn c :: p) lg) T /\ is_fix T
             /\ log T = lg /\ final_of T = final_of_kind (kind_of c).
 Proof.
   unfold benign_conn. intros B. pose proof (conn_as_is c p lg) as H. cbn zeta in H. cbn [item_cost].
@@ -557,22 +557,22 @@ Qed.
 
 Lemma bad_run pre c post :
   benign pre = true -> benign_conn c = false ->
-  run_with step (pre ++ Conn c :: post)
+  run_with step_before_fix (pre ++ Conn c :: post)
   = (map expected_item pre ++ repeat ONone (S (length post)), final_of_kind (kind_of c)).
 Proof.
   intros Bp Bc.
   pose proof (benign_run pre (Conn c :: post) [] Bp) as R1. cbn [app] in R1.
   destruct (bad_conn_wedges c post (map expected_item pre) Bc) as (T & R2 & F & L & Fin).
-  assert (R : reaches step (bound (pre ++ Conn c :: post)) (init (pre ++ Conn c :: post)) T).
+  assert (R : reaches step_before_fix (bound (pre ++ Conn c :: post)) (init (pre ++ Conn c :: post)) T).
   { rewrite bound_app. cbn [bound].
     eapply reaches_weaken; [| eapply reaches_trans; [exact R1 | exact R2]]. lia. }
-  unfold run_with. rewrite (reaches_fix step _ _ _ R F _ (le_n _)).
+  unfold run_with. rewrite (reaches_fix step_before_fix _ _ _ R F _ (le_n _)).
   rewrite L, Fin. unfold pad_log. rewrite map_length, app_length. cbn [length].
   replace (length pre + S (length post) - length pre) with (S (length post)) by lia.
   reflexivity.
 Qed.
 
-(** * The uniform theorem for today's code *)
+(** * The uniform theorem for the pre-fix loop *)
 
 Lemma ok_expected c : benign_conn c = true -> ok_conn c (norm (Conn c) (expected c)) = true.
 Proof.
@@ -636,13 +636,13 @@ Lemma kf_of_bad c : benign_conn c = false -> kf_of_kind (kind_of c) <> 0%Z.
 Proof. unfold benign_conn. destruct (kind_of c); cbn; try discriminate; lia. Qed.
 
 (** For EVERY list of connection scripts: unless the run shows exactly one of
-    the three recorded failure patterns, today's exporter satisfies the
+    the three recorded failure patterns, the pre-fix exporter satisfies the
     property oracle. *)
-Theorem C20_all : forall items,
-  let o := obs_of items (run_with step items) in
-  kf_C20 (items, o) = 0%Z -> ok_C20 items o = true.
+Theorem before_fix_all : forall items,
+  let o := obs_of items (run_with step_before_fix items) in
+  kf_before_fix (items, o) = 0%Z -> ok_C20 items o = true.
 Proof.
-  intros items o K. unfold ok_C20, kf_C20 in *. cbn [fst snd] in *.
+  intros items o K. unfold ok_C20, kf_before_fix in *. cbn [fst snd] in *.
   destruct (no_accept_err items) eqn:N; [| reflexivity].
   destruct (benign items) eqn:B.
   - unfold o, obs_of. rewrite (benign_all_run items B). cbn [fst snd].
@@ -653,8 +653,8 @@ Proof.
 Qed.
 
 (** [serves_next] in terms of the oracle: benign lists are served completely. *)
-Theorem benign_ok : forall items,
-  benign items = true -> ok_C20 items (obs_of items (run_with step items)) = true.
+Theorem before_fix_benign_ok : forall items,
+  benign items = true -> ok_C20 items (obs_of items (run_with step_before_fix items)) = true.
 Proof.
   intros items B. unfold ok_C20. destruct (no_accept_err items); [| reflexivity].
   unfold obs_of. rewrite (benign_all_run items B). cbn [fst snd].
@@ -793,7 +793,7 @@ Qed.
 (** UNRESTRICTED [serves_next] for the repaired loop: after ANY finite list of
     connection scripts (any chunking, premature close, oversize, reset, write
     error, any handler outcome) a well-formed request is being answered within
-    the step budget; the process never exits. *)
+    the step_before_fix budget; the process never exits. *)
 Theorem serves_next_fixed : forall pre last,
   no_accept_err pre = true -> wellformed_get last = true ->
   let items := pre ++ [Conn last] in
@@ -856,33 +856,47 @@ Proof.
   - exact IH.
 Qed.
 
-(** * The model that is tied to the binary ([run] = [run_with step_impl]) *)
+(** * The model that is tied to the binary ([run] = [run_with step_impl],
+    [step_impl] = [step_fixed] = exporter.rs after the F19 repair b7381c9) *)
 
-(** Holds for either choice of [step_impl] (today's [step]: through the three
-    known findings; [step_fixed]: unconditionally). *)
-Theorem C20_impl_all : forall items,
-  let o := obs_of items (run items) in
-  kf_C20 (items, o) = 0%Z -> ok_C20 items o = true.
+(** No exemption: every finite list of connection scripts is served as the
+    property demands. *)
+Theorem C20_impl_all : forall items, ok_C20 items (obs_of items (run items)) = true.
+Proof. exact C20_fixed_all. Qed.
+
+Theorem serves_next_impl : forall pre last,
+  no_accept_err pre = true -> wellformed_get last = true ->
+  let items := pre ++ [Conn last] in
+  (exists n, n <= bound items /\
+     iter n step_impl (init items)
+     = mkCfg (Responding (status_of (c_hnd last)) WOk) [] (map expected_fixed_item pre))
+  /\ (forall m, st (iter m step_impl (init items)) <> Exited)
+  /\ run items = (map expected_fixed_item pre ++ [OStatus (status_of (c_hnd last))], FIdle).
+Proof. exact serves_next_fixed. Qed.
+
+Theorem accept_error_exits_impl : forall n p lg,
+  iter (S n) step_impl (acc_cfg (AcceptErr :: p) lg) = mkCfg Exited p lg.
 Proof.
-  first [ exact C20_all | intros items o _; exact (C20_fixed_all items) ].
+  intros. cbn [iter]. change (step_impl (acc_cfg (AcceptErr :: p) lg)) with (mkCfg Exited p lg).
+  apply iter_fix. reflexivity.
 Qed.
 
-(** Witnesses that the unguarded statement is false of today's code. *)
+(** Witnesses that the pre-fix loop violated the statement (historic). *)
 Definition GET_BYTES : list Z :=
   [71; 69; 84; 32; 47; 32; 72; 84; 84; 80; 47; 49; 46; 49; 13; 10; 13; 10]%Z.
 Definition good_get : conn := mkConn (mk_chunk GET_BYTES []) HOk WOk false.
 
 Lemma serves_next_refuted_eof :
-  run_with step [Conn (mkConn [REof] HOk WOk false); Conn good_get] = ([ONone; ONone], FSpin).
+  run_with step_before_fix [Conn (mkConn [REof] HOk WOk false); Conn good_get] = ([ONone; ONone], FSpin).
 Proof. vm_compute. reflexivity. Qed.
 
 Lemma serves_next_refuted_oversize :
-  run_with step [Conn (mkConn [RChunk 65 (repeat 65%Z 2999)] HOk WOk false); Conn good_get]
+  run_with step_before_fix [Conn (mkConn [RChunk 65 (repeat 65%Z 2999)] HOk WOk false); Conn good_get]
   = ([ONone; ONone], FSpin).
 Proof. vm_compute. reflexivity. Qed.
 
 Lemma serves_next_refuted_reset :
-  run_with step [Conn (mkConn [RChunk 71 [69%Z]; RErr] HOk WOk true); Conn good_get]
+  run_with step_before_fix [Conn (mkConn [RChunk 71 [69%Z]; RErr] HOk WOk true); Conn good_get]
   = ([ONone; ONone], FExit).
 Proof. vm_compute. reflexivity. Qed.
 
